@@ -305,4 +305,7 @@ theorem rpn_inj : ∀ (a b : Spec.Expr), rpn a = rpn b → a = b := by
     obtain ⟨h5, h6⟩ := List.append_inj' h3 h2.1
     rw [ihc _ h5, iht _ h6, ihe _ h4]
 
+/-- `eval::eval` on the vector of a tree -/
+abbrev evalOf (e : Spec.Expr) (env : Env) : Res (Term × Env) := eval (rpn e).length (rpn e) env
+
 end YashModel.Arith
